@@ -148,7 +148,10 @@ Lemma sem_batch_flatten n (zs : list Z) : (1 <= n)%nat ->
   sem [OBatch n; OFlatten] (vz zs) = (vz zs, []).
 Proof.
   intros Hn. destruct (chunks_concat n Hn zs [] ltac:(simpl; lia)) as [B [E1 [E2 _]]].
-  unfold sem. simpl. unfold sem_stage. simpl. rewrite E1. simpl. rewrite flatten_chunks, E2. reflexivity.
+  assert (H1 : sem_stage (OBatch n) (vz zs, []) = (map VL B, [])).
+  { unfold sem_stage. cbn [fst snd sem_op]. rewrite E1. reflexivity. }
+  unfold sem. cbn [fold_left]. rewrite H1. unfold sem_stage. cbn [fst snd].
+  rewrite flatten_chunks, E2. reflexivity.
 Qed.
 
 (* ---------- the batch actor as it was before the repair does not meet its local specification ---------- *)
